@@ -341,6 +341,59 @@ theorem C09_flate_io_error_prefix (r0 : Reader) (data : List UInt8) (out : Array
 
 end apiRefine
 
+open Compress.Bzip2.ReaderApi Compress.Proofs.BzImpl in
+/-- **bzip2.Reader, I/O errors verbatim.** The source delivers the first `k` bytes of `data` and then
+    fails with the error `t`.  Whatever error any sequence of Reads on a new (or Reset) reader
+    returns, it is: exactly `t` if those `k` bytes are a complete valid input (the reader looks for a
+    following stream and is answered with `t`: never `io.EOF`); `t` - or Corrupted, where the Go
+    reader rejects an unassigned code word before the input runs out (`ErrRel.early`, C03) - if the
+    format specification runs out of input on them; Corrupted / Deprecated if it rejects them.  Never
+    `io.ErrUnexpectedEOF`, never `io.EOF`. -/
+theorem C09_bzip2_io_error_verbatim (r0 : Reader) (data : List UInt8) (k t : Nat) (ns : List Nat) :
+    let src : Src := { data := data, fault := some (k, t) }
+    let s := Bzip2.decode (data.take k)
+    ∀ x ∈ (Reader.run (r0.reset src) (ns.map .read)).2, ∀ out e, x = .read out (some e) →
+      (s.verdict = .ok → e = .other t) ∧
+      (s.verdict = .unexpectedEOF → e = .other t ∨ e = .corrupted) ∧
+      (s.verdict = .corrupt → e = .corrupted) ∧
+      (s.verdict = .deprecated → e = .deprecated) ∧
+      e ≠ .eof ∧ e ≠ .unexpectedEOF := by
+  intro src s x hx out e hxe
+  have hf := Compress.Proofs.BzReaderApi.reads_final (r0.reset src)
+    (Compress.Proofs.BzReaderApi.inv_reset r0 src) rfl ns x hx out e hxe
+  have hb := beh_init_spec (tablesAgree_of_degenerate tables_agree_degenerate) (data.take k)
+  simp only at hb
+  obtain ⟨_, hb2, hb3⟩ := hb
+  have hcore : (r0.reset src).core = Bzip2.Impl.init (Bits.ofBytesMSB (data.take k)) := rfl
+  have htag : (r0.reset src).tag = some t := rfl
+  rw [hcore, htag] at hf
+  generalize (beh (Bzip2.Impl.init (Bits.ofBytesMSB (data.take k)))).2 = b at hf hb2 hb3
+  subst hf
+  obtain ⟨v, hv'⟩ : ∃ v, s.verdict = v := ⟨_, rfl⟩
+  rw [hv']
+  rw [show (Bzip2.decode (data.take k)).verdict = v from hv'] at hb2 hb3
+  clear hv'
+  cases b with
+  | eof =>
+    have hv := hb2.1 rfl
+    refine ⟨fun _ => rfl, fun h => ?_, fun h => ?_, fun h => ?_, (by simp [liftErr]), (by simp [liftErr])⟩ <;>
+      (rw [hv] at h; cases h)
+  | unexpectedEOF =>
+    have hr := hb3 (by simp)
+    cases hr
+    refine ⟨fun h => (by cases h), fun _ => Or.inl rfl, fun h => (by cases h), fun h => (by cases h),
+      (by simp [liftErr]), (by simp [liftErr])⟩
+  | corrupted =>
+    have hr := hb3 (by simp)
+    refine ⟨fun h => ?_, fun _ => Or.inr rfl, fun _ => rfl, fun h => ?_, (by simp [liftErr]), (by simp [liftErr])⟩
+    · rw [h] at hr; cases hr
+    · rw [h] at hr; cases hr
+  | deprecated =>
+    have hr := hb3 (by simp)
+    cases hr
+    refine ⟨fun h => (by cases h), fun h => (by cases h), fun h => (by cases h), fun _ => rfl,
+      (by simp [liftErr]), (by simp [liftErr])⟩
+
 /-! non-vacuity (kernel-evaluated): the hypotheses of the API theorems are met by reachable states -
     a Read that returns `io.EOF`; a Read over a failing source that returns the injected error; a
     Close that returns nil with an error latched (`C18_flate_reader_closed`); a valid stream with a
